@@ -19,7 +19,7 @@ func init() {
 			"(bNotBefore bMultiplier now_ : Int) (override : Option Int)", "Int × Int × Int",
 			Spec{Kind: "i64", Canon: true, ParamNames: []string{"override"}, Ret: "state", StateVars: []string{"bNotBefore", "bMultiplier"}, Ignore: []string{"b.mu."},
 				Vars: map[string]string{"b.notBefore": "bNotBefore", "b.multiplier": "bMultiplier"},
-				Repl: map[string]string{"override != nil": "override.isSome", "*override": "(override.getD 0)", "maxMultiplier": "maxMultiplier"}})},
+				Repl: map[string]string{"override != nil": "override.isSome", "override == nil": "override.isNone", "*override": "(override.getD 0)", "maxMultiplier": "maxMultiplier"}})},
 		{"waitForBackoff.dur", waitDur(cl)},
 		// one iteration of the retry loop, statement by statement, whatever its shape (if/else + switch, one tagless switch, helpers):
 		// (how the iteration ends: .ok = returned success / .passthrough = returned the error it was given / .fresh = returned an
